@@ -263,6 +263,22 @@ Fixpoint marks_of (t : list (option Z * pos)) : list (Z * pos) :=
   end.
 End Tagged.
 
+(* ---- the __COVER array and the ghost count ---- *)
+(* __COVER as a map from the numeric index to the stored number; absent = never assigned *)
+Definition cover_array : Type := Z -> option Z.
+Definition cover_empty : cover_array := fun _ => None.
+(* what WriteProfile reports for index i: a missing key reads as 0 *)
+Definition cover_get (x : cover_array) (i : Z) : Z := match x i with Some v => v | None => 0 end.
+(* the counter statement: __COVER[i]++ (an unset element counts from 0) / __COVER[i] = 1 *)
+Definition cover_bump (m : cmode) (i : Z) (x : cover_array) : cover_array :=
+  fun j => if j =? i then Some (match m with MCount => cover_get x i + 1 | MSet => 1 end) else x j.
+(* number of "a statement starting at p began executing" events in a trace *)
+Fixpoint began (p : pos) (tr : list pos) : Z :=
+  match tr with
+  | [] => 0
+  | q :: t => (if pos_eqb q p then 1 else 0) + began p t
+  end.
+
 (* ---- FileReader.AddFile ---- *)
 Fixpoint count_nl (s : bytes) : Z :=
   match s with [] => 0 | c :: t => (if c =? 10 then 1 else 0) + count_nl t end.
